@@ -160,6 +160,7 @@ class HandleWsMessage(Contract):
                   json.dumps({"type": "next", "payload": {"data": {}}}), json.dumps({"type": "next", "payload": {}}),
                   json.dumps({"type": "next"}), json.dumps({"type": "ping"}), json.dumps({"type": "pong"}),
                   json.dumps({"type": "complete"}), json.dumps({"type": "error", "payload": [{"message": "boom", "path": ["a"]}]}),
+                  json.dumps({"type": "error", "payload": [{"message": "boom", "path": ["a"]}, {"message": "boom", "path": ["b"], "extensions": {"code": 1}}, {"message": "other"}]}),
                   json.dumps({"type": "bogus"}), json.dumps({}), json.dumps({"type": ""}), json.dumps({"type": None})]
         for f in frames:
             for ack in (False, True):
